@@ -359,6 +359,11 @@ fn supervise(a: Args) -> ! {
                         reproduced += 1;
                         how = what.clone();
                     }
+                    // killed from outside (SIGKILL: the kernel's out-of-memory killer, an operator): says nothing about
+                    // the case — a crash of its own making ends with SIGSEGV / SIGABRT / SIGBUS / SIGILL
+                    None if std::os::unix::process::ExitStatusExt::signal(&st) == Some(9) => {
+                        eprintln!("case shard={shard} stream={stream} index={index}: the process was killed from outside (SIGKILL, e.g. out of memory): inconclusive");
+                    }
                     _ => {
                         reproduced += 1;
                         how = format!("the process dies ({st})");
